@@ -224,6 +224,7 @@ fn write_modules(dir: &PathBuf) {
     let w = |n: &str, t: &str| {
         let _ = std::fs::write(dir.join(n), t);
     };
+    w("main.koto", "# the script path must exist for imports to resolve\n");
     w("good.koto", "export value = 'good'\nexport twice = |x| x * 2\n");
     w("bad.koto", "export early = 1\nthrow 'bad module'\n");
     w("cyc_a.koto", "import cyc_b\nexport a = 1\n");
